@@ -291,6 +291,51 @@ def _r3_levels(run):
             run.holds("C17.R3", f, e.node, "FITS auto-tiler (TOAST): one depth for every input of the collection")
 
 
+def _dynamic_populate_calls(project, f):
+    """Calls through a method looked up by name -- `tiler = getattr(self, self._TILERS.get(method, "_tile_tan")); tiler(..)` --:
+    {id(call node): True (every name the look-up can produce is a populate step) | None (names not determinable)}."""
+    out = {}
+    binds = {}
+    for n in own_nodes(f.node):
+        if isinstance(n, ast.Assign) and len(n.targets) == 1 and isinstance(n.targets[0], ast.Name) and isinstance(n.value, ast.Call) \
+                and isinstance(n.value.func, ast.Name) and n.value.func.id == "getattr" and len(n.value.args) >= 2:
+            binds[n.targets[0].id] = n.value
+    def names_of(expr):
+        names = {x.value for x in ast.walk(expr) if isinstance(x, ast.Constant) and isinstance(x.value, str)}
+        ok = True
+        for x in ast.walk(expr):
+            if isinstance(x, ast.Attribute) and isinstance(x.value, ast.Name) and x.value.id in ("self", "cls") and x.attr.isupper() or \
+                    (isinstance(x, ast.Attribute) and isinstance(x.value, ast.Name) and x.value.id in ("self", "cls") and x.attr.startswith("_") and x.attr[1:].isupper()):
+                tab = None
+                if f.cls is not None:
+                    for m in f.cls.body:
+                        if isinstance(m, ast.Assign) and len(m.targets) == 1 and isinstance(m.targets[0], ast.Name) and m.targets[0].id == x.attr and isinstance(m.value, ast.Dict):
+                            tab = m.value
+                if tab is None:
+                    ok = False
+                else:
+                    for v in tab.values:
+                        if isinstance(v, ast.Constant) and isinstance(v.value, str):
+                            names.add(v.value)
+                        else:
+                            ok = False
+        return names if ok else None
+    for c in own_calls(f.node):
+        g = None
+        if isinstance(c.func, ast.Name) and c.func.id in binds:
+            g = binds[c.func.id]
+        elif isinstance(c.func, ast.Call) and isinstance(c.func.func, ast.Name) and c.func.func.id == "getattr" and len(c.func.args) >= 2:
+            g = c.func
+        if g is None:
+            continue
+        nm = names_of(g.args[1])
+        if nm:
+            out[id(c)] = True if all(x in POPULATE_BUILDER or x in POPULATE_OTHER for x in nm) else None
+        else:
+            out[id(c)] = None
+    return out
+
+
 def _r4_emitters(run):
     project = run.project
     sites = []
@@ -320,12 +365,20 @@ def _r4_emitters(run):
         cfg = CFG(f.node)
         cn = cfg.node_containing(c)
         pops = set()
+        dyn = _dynamic_populate_calls(project, f)
+        unknown_dispatch = None
         for n in cfg.nodes:
             for cc in cfg.calls_at(n):
                 a = callee_attr(cc)
-                if a in POPULATE_BUILDER or a in POPULATE_OTHER:
+                if a in POPULATE_BUILDER or a in POPULATE_OTHER or dyn.get(id(cc)) is True:
                     pops.add(n.id)
+                elif id(cc) in dyn and dyn[id(cc)] is None:
+                    unknown_dispatch = cc
         if cn is None:
+            continue
+        if unknown_dispatch is not None and (not pops or cn.id in cfg.reachable(cfg.entry.id, avoid=pops, skip_labels=("exc",))):
+            run.undecided("C17.R4", f, unknown_dispatch, "%s calls a method looked up by a computed name (%s): cannot tell whether it fills the image set" % (
+                f.short, ast.unparse(unknown_dispatch.func)[:60]), kind="emit-dynamic-dispatch")
             continue
         if not pops:
             run.violated("C17.R4", f, c, "%s writes index_rel.wtml without any step that fills the image set (tiling / astrometry)" % f.short, kind="emit-without-populate")
@@ -342,10 +395,12 @@ def _r5_fits_tiler(run):
     cfg = CFG(f.node)
     assign_b = [n for n in cfg.nodes if n.kind == "stmt" and isinstance(n.ast, ast.Assign) and any(dotted(t) == "self.builder" for t in n.ast.targets)]
     pops = set()
+    dyn = _dynamic_populate_calls(project, f)
+    unknown_dispatch = [cc for n in cfg.nodes for cc in cfg.calls_at(n) if id(cc) in dyn and dyn[id(cc)] is None]
     for n in cfg.nodes:
         for cc in cfg.calls_at(n):
-            if callee_attr(cc) in POPULATE_OTHER | POPULATE_BUILDER:
-                pops.add(n.id)
+            if callee_attr(cc) in POPULATE_OTHER | POPULATE_BUILDER or id(cc) in dyn:
+                pops.add(n.id)          # (a dispatch whose names are not determinable is reported below, not as a violation)
     # `if self._reuse_existing(...): return`: a helper that answers "reused" (a true value) only after it has restored the builder
     # fills it on exactly the paths where its caller believes it -- the true branch of the test starts filled
     for n in cfg.nodes:
@@ -385,6 +440,10 @@ def _r5_fits_tiler(run):
                 if n.kind == "return" and n.id in r:
                     bad = n
             bad = bad or b
+    if bad is None and unknown_dispatch:
+        run.undecided("C17.R5", f, unknown_dispatch[0], "FitsTiler.tile fills the builder through a method looked up by a computed name (%s): not followed" %
+                      ast.unparse(unknown_dispatch[0].func)[:60], kind="fill-dynamic-dispatch")
+        return
     if bad is not None:
         conds = [ast.unparse(s.test)[:40] + ("" if blk == "body" else " is false") for s, blk in enclosing_stmts(f.node, bad.ast) if isinstance(s, ast.If)]
         run.violated("C17.R5", f, bad.ast, "return at line %d is reached (via %s) with self.builder freshly constructed and no step that fills it: the description handed "
